@@ -1,11 +1,12 @@
 (* Properties_C04.v — C04: client and server agree: what the caller sets is what the handler gets.
    Theorems only. They compose the models of the client (C10: url.PathEscape / QueryEscape, Lib/UrlEscape.v) and of the
    server (C01/C05: cleaning, trie routing, unescaping of captured texts, Model/SpecRouter*.v).
-   PARTIAL: headers, multipart documents, body codecs and the response path are tied by the correspondence run
-   (real client -> wire -> real middleware -> response reader) only; so are repeated query/form values as lists
-   (url.Values.Encode and url.ParseQuery are not modelled as a pair). *)
+   Header parameters: the line net/http writes and net/textproto reads (Model/HeaderWire.v) round-trips name and value.
+   PARTIAL: multipart documents, body codecs and the response path are tied by the correspondence run
+   (real client -> wire -> real middleware -> response reader) only. *)
 From V Require Import Bytes PathCleanLib SpecRouter SpecRouterSpec SpecRouterSegs SpecRouterSegDispatch RoundTrip RoundTripProofs.
 From V Require UrlEscape PathUnescapeLib.
+From V Require Import HeaderWire HeaderWireProofs.
 
 (* PATH VALUES. For every API description whose templates are simple (every placeholder a whole segment), every
    operation r of it, every method spelling m that is r's method up to case, and every tuple of values that are byte
@@ -80,3 +81,24 @@ Theorem C04_query_escape_models_agree : forall s, UrlEscape.wf_bytes s ->
   ClientBody.cb_query_escape s = UrlEscape.query_escape s.
 Proof. exact query_escape_agree. Qed.
 Print Assumptions C04_query_escape_models_agree.
+
+(* HEADER VALUES. For every declared header name made of token bytes and every value without control bytes other than
+   HTAB and without white space at its ends: the line the client side writes under the canonical name, followed by
+   anything that does not start with a space or tab (the next field, the blank line), is read by the server side as
+   exactly that canonical name -- the key the binder looks up -- and exactly that value, leaving exactly what followed. *)
+Theorem C04_header_value_roundtrip : forall n v rest,
+  hdr_name_ok n = true -> hdr_value_ok v = true -> no_ows_head rest = true ->
+  read_header (hdr_write (canonical_name n) v ++ rest) = HdrField (canonical_name n) v rest.
+Proof. exact header_param_roundtrip. Qed.
+Print Assumptions C04_header_value_roundtrip.
+
+(* what does not survive, and how it changes: CR and LF become spaces, white space at the ends is stripped, nothing else *)
+Theorem C04_header_value_normalised : forall k v rest,
+  hdr_name_ok k = true -> forallb value_byte (map nl_to_space v) = true -> no_ows_head rest = true ->
+  read_header (hdr_write k v ++ rest) = HdrField (canon_go true k) (trim (map nl_to_space v)) rest.
+Proof. exact header_value_normalised. Qed.
+Print Assumptions C04_header_value_normalised.
+
+Theorem C04_header_name_canonical_idem : forall k, canonical_name (canonical_name k) = canonical_name k.
+Proof. exact canonical_name_idem. Qed.
+Print Assumptions C04_header_name_canonical_idem.
